@@ -312,7 +312,13 @@ def native_replay(h, name, test_src):
                            cwd=d, capture_output=True, text=True, env=env)
         out = (p.stdout + p.stderr)
         keep = [l for l in out.split('\n') if re.search(r'panicked|assertion|test result|^test |FAILED|left:|right:|index out of bounds|overflow|unwrap', l)]
-        return {'rc': p.returncode, 'failed_natively': ('FAILED' in out or 'panicked' in out), 'relevant_output': keep[:30], 'output_tail': out[-800:]}
+        # a panic inside kani's playback runtime (concrete_playback.rs) means the recorded values ran out: execution went PAST the
+        # point where the recorded failure happened, i.e. the failure did not reproduce on this tree
+        pan = [l for l in out.split('\n') if 'panicked at' in l]
+        exhausted = bool(pan) and all('concrete_playback.rs' in l for l in pan)
+        failed = ('test result: FAILED' in out or bool(pan)) and not exhausted
+        return {'rc': p.returncode, 'failed_natively': failed, 'recorded_values_exhausted_without_failure': exhausted,
+                'relevant_output': keep[:30], 'output_tail': out[-800:]}
     finally:
         shutil.rmtree(d, ignore_errors=True)
 
